@@ -31,7 +31,7 @@ fam(ScenarioFamily('forward', BUS_PROPS + ('C07',), _rand(gen.cfg(nb=(2, 4), p_f
 # forwarding combined with small history limits (loop prevention must not depend on what the history still holds)
 fam(ScenarioFamily('forward_history', BUS_PROPS + ('C07',), _rand(gen.cfg(nb=(2, 4), p_fwd=1.0, hist=[1, 2, 3, 5, 10], actor_ops=(3, 9), p_idle=0.12, p_age=0.2)), 400, 4000))
 # small history limits
-fam(ScenarioFamily('history', BUS_PROPS, _rand(gen.cfg(hist=[1, 2, 3, 5, 10], nb=(1, 3), actor_ops=(3, 9), p_idle=0.15, p_age=0.25)), 600, 6000))
+fam(ScenarioFamily('history', BUS_PROPS, _rand(gen.cfg(hist=[1, 2, 3, 5, 10], nb=(1, 3), actor_ops=(3, 9), p_idle=0.15, p_age=0.25, p_actor_redisp=0.08, p_redisp_other=0.3, p_redisp=0.02)), 600, 6000))
 
 
 CHECKS: dict = {}
